@@ -54,3 +54,47 @@ def stepReport (fields : List String) : Option String :=
   | _ => none
 
 end Ops
+
+namespace Ops
+open Model
+
+def catName : Cat → String
+  | .bad => "bad" | .deprecated => "deprecated" | .noExt => "noext" | .missing => "missing"
+  | .unused => "unused" | .readError => "readerr" | .noCopyright => "nocop" | .noLicence => "nolic"
+  | .noBoth => "noboth" | .noCopyrightOnly => "nocoponly" | .noLicenceOnly => "noliconly"
+
+def allCats : List Cat :=
+  [.bad, .deprecated, .noExt, .missing, .unused, .readError, .noCopyright, .noLicence, .noBoth,
+   .noCopyrightOnly, .noLicenceOnly]
+
+/-- `tag.cat=<flattened pairs>` for every category -/
+def showEntries (tag : String) (es : List Entry) : String :=
+  "|".intercalate (allCats.map fun c =>
+    tag ++ "." ++ catName c ++ "=" ++ encodeList ((es.filter (·.1 == c)).flatMap fun e => [e.2.1, e.2.2]))
+
+def stepLint (fields : List String) : Option String :=
+  match fields with
+  | "lint" :: lics :: files => do
+      let ls ← decodeList lics
+      let fs ← decodeFiles files
+      match generate spdxTable { files := fs, licFiles := ls } with
+      | none => pure "error:duplicate"
+      | some r =>
+        let s := jsonSummary r
+        pure ("|".intercalate [
+          "exit=" ++ ",".intercalate ([Format.json, .plain, .lines, .quiet].map fun f => toString (lintCmd f r).2),
+          showEntries "J" (lintCmd .json r).1, showEntries "P" (lintCmd .plain r).1,
+          showEntries "L" (lintCmd .lines r).1, showEntries "Q" (lintCmd .quiet r).1,
+          "S.files=" ++ encodeList s.files, "S.total=" ++ toString s.filesTotal,
+          "S.cop=" ++ toString s.withCopyright, "S.lic=" ++ toString s.withLicensing,
+          "S.compliant=" ++ encodeBool s.compliant, "S.used=" ++ encodeList s.used])
+  | "lintfile" :: lics :: sel :: files => do
+      let ls ← decodeList lics
+      let F ← decodeList sel
+      let fs ← decodeFiles files
+      match lintFile spdxTable { files := fs, licFiles := ls } F with
+      | none => pure "error:duplicate"
+      | some (out, e) => pure ("exit=" ++ toString e ++ "|" ++ showEntries "F" out)
+  | _ => none
+
+end Ops
